@@ -160,6 +160,21 @@ pub fn gen_case(ch: &mut Choices) -> CfiCase {
     CfiCase { big, eh, cie, fde, aarch64: ch.bool() }
 }
 
+/// The address size the section is told to assume by default. A version 4 CIE carries its own address size, which
+/// governs everything in that CIE and its FDEs: for such cases the section default is (half of the time) a different
+/// one, and must not matter.
+pub fn section_address_size(case: &CfiCase) -> u8 {
+    if !case.eh && case.cie.version == 4 && case.fde.range_raw & 1 == 1 {
+        if case.cie.address_size == 8 {
+            4
+        } else {
+            8
+        }
+    } else {
+        case.cie.address_size
+    }
+}
+
 fn mrule_of(r: &RegisterRule<usize>) -> Option<MRule> {
     Some(match r {
         RegisterRule::Undefined => MRule::Undefined,
@@ -265,7 +280,7 @@ pub fn run_gimli<S: UnwindContextStorage<usize>>(case: &CfiCase, built: &BuiltFr
         go!(s, gimli::EhFrameOffset)
     } else {
         let mut s = DebugFrame::new(&built.bytes, endian);
-        s.set_address_size(case.cie.address_size);
+        s.set_address_size(section_address_size(case));
         s.set_vendor(vendor);
         go!(s, gimli::DebugFrameOffset)
     }
@@ -461,7 +476,7 @@ pub fn check_case(case: &CfiCase, cx: &mut Ctx, storages: bool) -> R {
                 look!(s, gimli::EhFrameOffset)
             } else {
                 let mut s = DebugFrame::new(&built.bytes, endian);
-                s.set_address_size(case.cie.address_size);
+                s.set_address_size(section_address_size(case));
                 s.set_vendor(if case.aarch64 { gimli::Vendor::AArch64 } else { gimli::Vendor::Default });
                 look!(s, gimli::DebugFrameOffset)
             };
